@@ -333,6 +333,37 @@ pub struct Ctx {
     pub violations: Mutex<Vec<Violation>>,
     pub started: Instant,
     pub notes: Mutex<Vec<String>>,
+    pub mode: Mode,
+    /// names of the generated checks met in List mode: (name, raw bytes?)
+    pub listed: Mutex<Vec<(String, bool)>>,
+    pub serve: Option<FuzzServe>,
+}
+
+/// How the drivers below behave.
+#[derive(Clone, Copy, PartialEq, Eq, Debug)]
+pub enum Mode {
+    /// run the checks (proptest campaigns, enumerations, sweeps, corpus replay)
+    Normal,
+    /// only collect the names of the generated checks
+    List,
+    /// serve one generated check to a coverage-guided fuzzer: see `FuzzServe`
+    Serve,
+}
+
+/// Serve mode: the property's `run` is executed on a service thread; when it reaches the generated
+/// check called `want`, that call stays in a loop turning every byte string received on `rx` into a
+/// case (the bytes are the generator's random stream) and answering with the outcome on `tx`.
+pub struct FuzzServe {
+    pub want: String,
+    pub rx: Mutex<std::sync::mpsc::Receiver<Vec<u8>>>,
+    pub tx: Mutex<std::sync::mpsc::Sender<FuzzOutcome>>,
+}
+
+#[derive(Debug, Clone, Serialize, Deserialize)]
+pub enum FuzzOutcome {
+    /// the check held on this case (or the bytes did not yield a case)
+    Held,
+    Violated { check: String, sig: String, msg: String, case: Value },
 }
 
 impl Ctx {
@@ -358,6 +389,9 @@ impl Ctx {
             violations: Mutex::new(vec![]),
             started: Instant::now(),
             notes: Mutex::new(vec![]),
+            mode: Mode::Normal,
+            listed: Mutex::new(vec![]),
+            serve: None,
         }
     }
 
@@ -426,6 +460,25 @@ impl Ctx {
         S: Strategy<Value = V>,
         V: std::fmt::Debug + Serialize + Clone,
     {
+        match self.mode {
+            Mode::List => {
+                self.listed.lock().unwrap().push((check.to_string(), false));
+                return;
+            }
+            Mode::Serve => {
+                if self.serve.as_ref().map_or(false, |s| s.want == check) {
+                    let strat = strategy();
+                    self.serve_loop(check, |data, st| bytes_case(&strat, &test, data, st));
+                }
+                return;
+            }
+            Mode::Normal => {}
+        }
+        // replay tier: inputs saved from coverage-guided campaigns (the bytes are the generator's random stream)
+        {
+            let strat = strategy();
+            self.corpus_replay(check, |data, st| bytes_case(&strat, &test, data, st));
+        }
         if cases == 0 || stopped() {
             return;
         }
@@ -515,7 +568,7 @@ impl Ctx {
     ) where
         V: Serialize + Sync,
     {
-        if stopped() {
+        if stopped() || self.mode != Mode::Normal {
             return;
         }
         let workers = self.threads.min(items.len().div_ceil(64)).max(1);
@@ -573,7 +626,7 @@ impl Ctx {
         count: u64,
         test: impl Fn(u64, &mut Stats) -> Result<(), (Fail, Value)> + Sync,
     ) {
-        if stopped() {
+        if stopped() || self.mode != Mode::Normal {
             return;
         }
         let workers = (self.threads as u64).min(count.div_ceil(1024)).max(1);
@@ -603,6 +656,182 @@ impl Ctx {
                 });
             }
         });
+    }
+
+    /// A check over raw byte strings (no generator): the test receives the bytes themselves.
+    /// Normal mode replays the saved corpus of this check; Serve mode hands it to the fuzzer.
+    pub fn bytes_check(&self, check: &str, test: impl Fn(&[u8], &mut Stats) -> TestResult + Sync) {
+        let one = |data: &[u8], st: &mut Stats| -> Option<(Fail, Value)> {
+            let r = match guard(|| test(data, st)) {
+                Ok(r) => r,
+                Err(p) => Err(Fail::new("harness-panic", format!("panic escaped the check: {}", p))),
+            };
+            r.err().map(|f| (f, json!({ "bytes": hex(data) })))
+        };
+        match self.mode {
+            Mode::List => self.listed.lock().unwrap().push((check.to_string(), true)),
+            Mode::Serve => {
+                if self.serve.as_ref().map_or(false, |s| s.want == check) {
+                    self.serve_loop(check, one);
+                }
+            }
+            Mode::Normal => self.corpus_replay(check, one),
+        }
+    }
+
+    pub fn corpus_dir(&self, check: &str) -> PathBuf {
+        PathBuf::from(format!("{}/fuzz/corpus/{}-{}", VERIF_DIR, self.property, check))
+    }
+
+    /// run every saved input of this check once (quick and thorough tiers)
+    fn corpus_replay(&self, check: &str, one: impl Fn(&[u8], &mut Stats) -> Option<(Fail, Value)>) {
+        if stopped() {
+            return;
+        }
+        let dir = self.corpus_dir(check);
+        let Ok(rd) = std::fs::read_dir(&dir) else { return };
+        let mut files: Vec<PathBuf> = rd.filter_map(|e| e.ok().map(|e| e.path())).filter(|p| p.is_file()).collect();
+        files.sort();
+        let mut st = self.new_stats();
+        let mut n = 0u64;
+        for f in files {
+            let Ok(data) = std::fs::read(&f) else { continue };
+            n += 1;
+            if let Some((fail, case)) = one(&data, &mut st) {
+                self.record_violation(check, fail, case);
+                break;
+            }
+        }
+        st.class_n(&format!("saved corpus inputs replayed ({})", check), n);
+        self.merge_stats(st);
+    }
+
+    /// Serve mode: answer one outcome per received input until the channel closes.
+    fn serve_loop(&self, check: &str, one: impl Fn(&[u8], &mut Stats) -> Option<(Fail, Value)>) {
+        let Some(s) = &self.serve else { return };
+        let rx = s.rx.lock().unwrap();
+        let tx = s.tx.lock().unwrap();
+        *FUZZ_STATS.lock().unwrap() = Some(self.new_stats());
+        while let Ok(data) = rx.recv() {
+            let mut g = FUZZ_STATS.lock().unwrap();
+            let st = g.as_mut().unwrap();
+            let out = match one(&data, st) {
+                None => FuzzOutcome::Held,
+                Some((f, case)) => FuzzOutcome::Violated {
+                    check: check.to_string(),
+                    sig: f.sig,
+                    msg: f.msg,
+                    case,
+                },
+            };
+            drop(g);
+            if tx.send(out).is_err() {
+                break;
+            }
+        }
+    }
+}
+
+/// statistics of the check being served to the fuzzer (dumped by the fuzz target at process exit)
+pub static FUZZ_STATS: Mutex<Option<Stats>> = Mutex::new(None);
+
+/// Turn `data` into a case of `strat` (the bytes are the generator's random stream; once they are
+/// used up the stream continues with zeros), run `test` on it and, when it fails, shrink the case
+/// with proptest. Returns the failure and the JSON form of the shrunk case.
+pub fn bytes_case<S, V>(strat: &S, test: &(impl Fn(&V, &mut Stats) -> TestResult + ?Sized), data: &[u8], st: &mut Stats) -> Option<(Fail, Value)>
+where
+    S: Strategy<Value = V>,
+    V: std::fmt::Debug + Serialize + Clone,
+{
+    use proptest::test_runner::{RngAlgorithm, TestRng};
+    let cfg = Config {
+        failure_persistence: None,
+        max_shrink_iters: 2048,
+        ..Config::default()
+    };
+    // (vendor/proptest: the pass-through stream is consumed linearly and continues pseudo-randomly past its end)
+    let rng = TestRng::from_seed(RngAlgorithm::PassThrough, data);
+    let mut runner = TestRunner::new_with_rng(cfg, rng);
+    let tree = match guard(|| strat.new_tree(&mut runner)) {
+        Ok(Ok(t)) => t,
+        Ok(Err(r)) => {
+            st.class(&format!("fuzz input did not yield a case ({})", r.to_string().chars().take(60).collect::<String>()));
+            return None;
+        }
+        Err(p) => {
+            st.class(&format!("fuzz input did not yield a case (generator panicked: {})", p.chars().take(80).collect::<String>()));
+            return None;
+        }
+    };
+    let v = tree.current();
+    let run = |v: &V, st: &mut Stats| -> TestResult {
+        match guard(|| test(v, st)) {
+            Ok(r) => r,
+            Err(p) => Err(Fail::new("harness-panic", format!("panic escaped the check: {}", p))),
+        }
+    };
+    let first = match run(&v, st) {
+        Ok(()) => return None,
+        Err(f) => f,
+    };
+    // shrink with frozen statistics
+    let frozen = RefCell::new({
+        let mut s = Stats::new(st.open_sigs.clone());
+        s.frozen = true;
+        s
+    });
+    let res = runner.run_one(tree, |v| run(&v, &mut frozen.borrow_mut()).map_err(|f| TestCaseError::fail(f.msg)));
+    let min = match res {
+        Err(TestError::Fail(_, vmin)) => vmin,
+        _ => v,
+    };
+    let f = match run(&min, &mut frozen.borrow_mut()) {
+        Err(f) => f,
+        Ok(()) => first,
+    };
+    Some((f, serde_json::to_value(&min).unwrap_or(Value::Null)))
+}
+
+impl Stats {
+    /// compact dump for merging statistics of fuzzing processes
+    pub fn dump(&self) -> Value {
+        json!({
+            "evaluations": self.evaluations,
+            "nontrivial": self.nontrivial.iter().take(4_000_000).collect::<Vec<_>>(),
+            "classes": self.classes,
+            "samples": self.samples,
+            "known_hits": self.known_hits,
+        })
+    }
+    pub fn absorb_dump(&mut self, v: &Value) {
+        self.evaluations += v["evaluations"].as_u64().unwrap_or(0);
+        if let Some(a) = v["nontrivial"].as_array() {
+            for d in a {
+                if let Some(d) = d.as_u64() {
+                    self.nontrivial.insert(d);
+                }
+            }
+        }
+        if let Some(o) = v["classes"].as_object() {
+            for (k, n) in o {
+                *self.classes.entry(k.clone()).or_insert(0) += n.as_u64().unwrap_or(0);
+            }
+        }
+        if let Some(o) = v["samples"].as_object() {
+            for (k, a) in o {
+                let e = self.samples.entry(format!("fuzz: {}", k)).or_default();
+                for s in a.as_array().into_iter().flatten() {
+                    if e.len() < 2 {
+                        e.push(s.clone());
+                    }
+                }
+            }
+        }
+        if let Some(o) = v["known_hits"].as_object() {
+            for (k, n) in o {
+                *self.known_hits.entry(k.clone()).or_insert(0) += n.as_u64().unwrap_or(0);
+            }
+        }
     }
 }
 
